@@ -202,6 +202,13 @@ Definition mtype_of_string (s : string) : option mtype :=
   else if String.eqb s "complete" then Some MComplete
   else None.
 
+(* the same table as data (member name of the Python enum, value): compared with the enum of BOTH
+   modules of /repo on every run; Proofs/WsP.v mtype_table_exact ties it to mtype_of_string *)
+Definition type_table : list (string * string * mtype) :=
+  [("CONNECTION_INIT", "connection_init", MInit); ("CONNECTION_ACK", "connection_ack", MAck);
+   ("PING", "ping", MPing); ("PONG", "pong", MPong); ("SUBSCRIBE", "subscribe", MSubscribe);
+   ("NEXT", "next", MNext); ("ERROR", "error", MError); ("COMPLETE", "complete", MComplete)].
+
 Inductive tyres := TInvalid | TCrash (e : string) | TKnown (t : mtype) (payload : json).
 
 Definition hashable (j : json) : bool := match j with JArr _ | JObj _ => false | _ => true end.
@@ -517,34 +524,66 @@ Definition spec_ws (c : cfg) (rq : request) (fs : list frame) : trace :=
 (* ------------------------------------------------------------------------------------------ *)
 (* Finding classes (boolean guards; the same functions are called by the harness)              *)
 
-(* G-shape: the frame is text, or a JSON object whose type is falsy or hashable and whose payload
-   has the JSON kind its type requires.  shape_ok f = false is the class "malformed shape". *)
-Definition shape_ok (f : frame) : bool :=
+(* G-shape, written syntactically and EXACT (Proofs/WsP.v: type_crashes_iff, payload_crashes_iff,
+   odd_error_iff): the frames on which the handler leaves with a non-protocol exception, plus the two
+   error payloads ({} and "") that give an EMPTY multi-error although they are not a list.          *)
+
+(* .get on a non-dict (AttributeError) or an unhashable type in `type_ not in {...}` (TypeError): any phase *)
+Definition type_crashes (f : frame) : bool :=
   match f with
-  | FText _ => true
+  | FText _ => false
   | FJson (JObj kv) =>
       match jlookup "type" kv with
-      | None => true
-      | Some t =>
-          if negb (truthy t) then true
-          else if negb (hashable t) then false
-          else match t with
-               | JStr s =>
-                   match mtype_of_string s with
-                   | Some MNext => match jlookup "payload" kv with None | Some (JObj _) => true | _ => false end
-                   | Some MError =>
-                       match jlookup "payload" kv with
-                       | None => true
-                       | Some (JArr l) => forallb is_error_obj l
-                       | _ => false
-                       end
-                   | _ => true
-                   end
-               | _ => true
-               end
+      | Some (JArr (_ :: _)) | Some (JObj (_ :: _)) => true
+      | _ => false
       end
-  | FJson _ => false
+  | FJson _ => true
   end.
+
+(* `"data" not in payload` / payload["data"] / from_errors_dicts(payload) on the wrong JSON kind: only
+   once the stream is open (before the ack the expected-type check comes first) *)
+Definition payload_crashes (f : frame) : bool :=
+  match f with
+  | FJson (JObj kv) =>
+      match jlookup "type" kv with
+      | Some (JStr s) =>
+          match mtype_of_string s with
+          | Some MNext =>
+              match jlookup "payload" kv with
+              | None | Some (JObj _) => false
+              | Some (JArr l) => existsb (is_str "data") l
+              | Some (JStr p) => has_substring "data" p
+              | Some _ => true
+              end
+          | Some MError =>
+              match jlookup "payload" kv with
+              | None | Some (JObj []) | Some (JStr "") => false
+              | Some (JArr l) => negb (forallb is_error_obj l)
+              | Some _ => true
+              end
+          | _ => false
+          end
+      | _ => false
+      end
+  | _ => false
+  end.
+
+Definition odd_empty_error (f : frame) : bool :=
+  match f with
+  | FJson (JObj kv) =>
+      match jlookup "type" kv with
+      | Some (JStr s) =>
+          match mtype_of_string s with
+          | Some MError => match jlookup "payload" kv with Some (JObj []) | Some (JStr "") => true | _ => false end
+          | _ => false
+          end
+      | _ => false
+      end
+  | _ => false
+  end.
+
+Definition shape_ok (f : frame) : bool :=
+  negb (type_crashes f) && negb (payload_crashes f) && negb (odd_empty_error f).
 
 Definition terminal (k : skind) : bool :=
   match k with SComplete | SError _ | SMalformed => true | _ => false end.
@@ -563,7 +602,7 @@ Definition g_nonnull (fs : list frame) : bool :=
 
 (* G-shape over the frames the specification consumes *)
 Definition g_shape (fs : list frame) : bool :=
-  match fs with [] => true | f :: r => shape_ok f && forallb shape_ok (spec_prefix r) end.
+  match fs with [] => true | f :: r => negb (type_crashes f) && forallb shape_ok (spec_prefix r) end.
 
 Definition is_ack (f : frame) : bool := match skind_of f with SAck => true | _ => false end.
 
@@ -678,5 +717,10 @@ Definition run_ws_cmd (e : sexp) : sexp :=
              L (map (fun f => sKind (skind_of f)) fs)]
       | _, _ => sErr "guards: input"
       end
+  | L [A "tables"] =>
+      L [L (map (fun x => L [A (fst (fst x)); A (snd (fst x))]) type_table);
+         A GRAPHQL_TRANSPORT_WS;
+         L (map A ("GraphQL Subscription" :: "connection init" :: "subscribe" :: [SPAN_RECV]));
+         A SER_ERROR; A ID_PLACEHOLDER]
   | _ => sErr "ws: bad command"
   end.
